@@ -1,108 +1,16 @@
 import Fabio.Generated.C04
 import Fabio.Model.C04
 /-!
-Obligations over the facts regenerated from `/repo` on every run: the constants and rules the C04 model is
-built on are still the ones in the source.
-
-The facts are EVENTS in role names (`tools/factgen/c04.go`): constants inlined, switches as if-chains, calls
-to unexported helpers followed, every local named by the role it plays (`t` an element of `Targets`, `n` the
-slot count, `used` the ring length, `ring` the slice made with it, `sum`/`nf`/`max` the sum, number and
-maximum of the positive requested weights, `unit`/`norm` the two divisors, `dyn` the dynamic share, `s` a slot
-record, `next`/`step` the cursor and stride, `recv` the receiver, `p0, p1, …` parameters of a top-level
-function, `c0` a closure parameter), an event = `[innermost guarding condition] statement`. Renaming locals,
-parameters or unexported functions, extracting or inlining helpers, if/else ↔ switch, named constants ↔
-literals, moving code between files, and index-form range loops leave them unchanged.
+OBLIGATIONS over the facts regenerated from `/repo` on every run: statements the proof chain needs and that no
+stream can establish by running the code. (The statements that pin the shape of sequential code whose behaviour
+the streams compare are change detectors: `Props/C04Pins.lean`.)
 -/
 namespace Fabio.Props.C04Facts
 open Fabio Fabio.Generated.C04
 
-/-- substring test that the kernel can evaluate -/
-def hasSubL (pat : List Char) : List Char → Bool
-  | [] => pat.isEmpty
-  | c :: cs => pat.isPrefixOf (c :: cs) || hasSubL pat cs
-def hasSub (pat s : String) : Bool := hasSubL pat.toList s.toList
-/-- number of events that contain `pat` -/
-def count (pat : String) (evs : List String) : Nat := (evs.filter (hasSub pat)).length
-
-/-- `const maxSlots = 1e4` — the constant the slot count is computed with — is the model's `maxSlots`. -/
-theorem maxSlots_pinned : Generated.C04.maxSlots = Model.C04.maxSlots := by decide +kernel
-
-/-- Every test on a requested weight in `weighTargets` is `FixedWeight > 0` (a weight ≤ 0 is "dynamic"). -/
-theorem fixed_tests_are_gt_zero :
-    fixedWeightTests ≠ [] ∧ fixedWeightTests.all (· == "FixedWeight > 0") = true := by decide +kernel
-
-/-- the slot rule: truncated product, at least one slot for a positive weight, the ring has Σn slots,
-entries without slots are skipped -/
-theorem slot_rule :
-    weighEvents.contains "n := int(float64(C) * t.Weight)" = true ∧
-    weighEvents.contains "[n == 0 && t.Weight > 0] n = 1" = true ∧
-    count "] n = " weighEvents = 1 ∧
-    weighEvents.contains "slots[i].n = n" = true ∧
-    weighEvents.contains "used := 0" = true ∧
-    weighEvents.contains "used += n" = true ∧
-    count "used +=" weighEvents = 1 ∧ count "used =" weighEvents = 0 ∧
-    weighEvents.contains "ring := make([]*Target, used)" = true ∧
-    weighEvents.contains "[s.n <= 0] continue" = true := by decide +kernel
-
-/-- the fill: entries in the order `sort.Sort` leaves them (ascending slot count), start at 0 with stride
-used/n, `n` times: scan to the next nil slot, store the target, advance by the stride; the result is the ring -/
-theorem fill_rule :
-    (weighEvents.filter (· == "call sort.Sort(slots)")).length = 1 ∧
-    slotsLess = "return recv[p0].n < recv[p1].n" ∧
-    weighEvents.contains "range slots" = true ∧
-    weighEvents.contains "next, step := 0, used/s.n" = true ∧
-    weighEvents.contains "for k in 0..s.n" = true ∧
-    weighEvents.contains "[while ring[next] != nil] next = (next + 1) % used" = true ∧
-    weighEvents.contains "ring[next] = recv.Targets[s.i]" = true ∧
-    weighEvents.contains "slots[i].i = i" = true ∧
-    weighEvents.contains "next = (next + step) % used" = true ∧
-    weighEvents.contains "recv.wTargets = ring" = true := by decide +kernel
-
-/-- without a fixed weight: equal weights, the ring is the target list itself, nothing else happens -/
-theorem bypass_rule :
-    weighEvents.contains "[nf == 0] eq := 1.0 / float64(len(recv.Targets))" = true ∧
-    weighEvents.contains "[nf == 0] t.Weight = eq" = true ∧
-    weighEvents.contains "[nf == 0] recv.wTargets = recv.Targets" = true ∧
-    weighEvents.contains "[nf == 0] return" = true := by decide +kernel
-
-/-- the normalisation: count/sum of the positive requested weights, when to scale, the dynamic share and its
-clamp, the two assignments of the effective weight and nothing else that stores a weight (as repaired for
-D02: division by the sum, an overflowing sum is taken relative to the largest weight) -/
-theorem normalisation_rule :
-    weighEvents.contains "[t.FixedWeight > 0] nf++" = true ∧
-    weighEvents.contains "[t.FixedWeight > 0] sum += t.FixedWeight" = true ∧
-    weighEvents.contains "[sum > 1 || (nf == len(recv.Targets) && sum < 1)] norm = sum" = true ∧
-    weighEvents.contains "norm := 1.0" = true ∧ weighEvents.contains "unit := 1.0" = true ∧
-    weighEvents.contains "[math.IsInf(sum, 1)] unit, sum = max, 0" = true ∧
-    weighEvents.contains "[t.FixedWeight > 0] sum += t.FixedWeight / unit" = true ∧
-    weighEvents.contains "dyn := (1 - sum) / float64(len(recv.Targets)-nf)" = true ∧
-    weighEvents.contains "[dyn < 0] dyn = 0" = true ∧
-    weighEvents.contains "[t.FixedWeight > 0] t.Weight = t.FixedWeight / unit / norm" = true ∧
-    weighEvents.contains "[!(t.FixedWeight > 0)] t.Weight = dyn" = true ∧
-    count "t.Weight = " weighEvents = 3 ∧
-    count "norm = " weighEvents = 1 ∧ count "unit = " weighEvents = 0 ∧ count "dyn = " weighEvents = 1 := by
-  decide +kernel
-
-/-- `addTarget` clamps a negative weight; `setWeight` counts the matching targets with a first pass, spreads
-the share over them with a second pass and re-weighs the route -/
-theorem entry_rules :
-    addTargetEvents = ["[fw < 0] fw = 0"] ∧
-    setWeightEvents.contains "cnt := loop(0)" = true ∧
-    setWeightEvents.contains "each := p1 / float64(cnt)" = true ∧
-    setWeightEvents.contains "call loop(each)" = true ∧
-    setWeightEvents.contains "[in loop] t.FixedWeight = c0" = true ∧
-    count "return" setWeightEvents = 1 ∧
-    setWeightEvents.contains "[cnt > 0] recv.wTargets = ring" = true := by decide +kernel
-
-/-- `rrPicker` indexes `wTargets` modulo its length and advances the cursor by one; `rndPicker` indexes it
-with `randIntn(len)` -/
-theorem picker_rules :
-    rrModulus = ["uint64(len(p0.wTargets))"] ∧ rrIndexed = ["p0.wTargets"] ∧ rrAdds = ["&p0.total, 1"] ∧
-    rndEvents = ["return p0.wTargets[randIntn(len(p0.wTargets))]"] := by decide +kernel
-
 /-- Wiring that no stream drives (`main()` is not run): every lookup the proxies perform — `Table.Lookup` for
 HTTP and gRPC, `Table.LookupHost` for TCP and TCP+SNI — is handed `route.Picker[<cfg>.Proxy.Strategy]`, the
-map has exactly the keys `rnd` and `rr` (bound to the functions `picker_rules` is about), and the configuration
+map has exactly the keys `rnd` and `rr` (bound to the functions `C04Pins.picker_rules` is about and the streams drive), and the configuration
 refuses every other strategy: `proxy.strategy=rr` is the round-robin picker the theorems describe, on every
 entry point. -/
 theorem picker_wiring :
@@ -112,22 +20,5 @@ theorem picker_wiring :
     lookupPickerArgs.any (·.startsWith "LookupHost") = true ∧
     pickerKeys = ["rnd", "rr"] ∧
     strategyChecks = ["cfg.Proxy.Strategy != \"rr\" && cfg.Proxy.Strategy != \"rnd\""] := by decide +kernel
-
-/-- `Table.lookup`: no target → nil, one target → that target, else the picker -/
-theorem lookup_rules :
-    lookupShortcuts.any (·.endsWith "n := len(r.Targets)") = true ∧
-    lookupShortcuts.contains "[n == 0] res0 = nil" = true ∧
-    lookupShortcuts.contains "[n == 1] tgt = r.Targets[0]" = true ∧
-    lookupShortcuts.contains "[!(n == 1)] tgt = p2(r)" = true := by decide +kernel
-
-/-- D02 repaired: both entrances refuse a weight that is not finite, right after the empty-prefix/target
-checks (the order the model `applyDefW` reproduces) -/
-theorem nonfinite_checks :
-    addRouteChecks.take 3 = ["p0.Src == \"\" => return errors.New(\"route: prefix must not be empty\")",
-      "p0.Dst == \"\" => return errors.New(\"route: target must not be empty\")",
-      "!(!(math.IsNaN(p0.Weight)) && !(math.IsInf(p0.Weight, 0))) => return errors.New(\"route: invalid weight\")"] ∧
-    weighRouteChecks.take 2 = ["p0.Src == \"\" => return errors.New(\"route: prefix must not be empty\")",
-      "!(!(math.IsNaN(p0.Weight)) && !(math.IsInf(p0.Weight, 0))) => return errors.New(\"route: invalid weight\")"] := by
-  decide +kernel
 
 end Fabio.Props.C04Facts
